@@ -44,6 +44,7 @@ type tableReplay struct {
 	Auth    string `json:"auth,omitempty"`
 	Authz   string `json:"authz,omitempty"`
 	Cookie  string `json:"cookie_header,omitempty"`
+	Host    string `json:"host,omitempty"`
 }
 
 func (w *world) prepareCred(cv credVal, tk *tableKeys) prepared {
@@ -87,12 +88,18 @@ func specFor(p prepared, t target, mv methodVar, origin string) *reqSpec {
 
 func (j *judge) tableCell(mode string, p prepared, t target, mv methodVar, origin string) {
 	sp := specFor(p, t, mv, origin)
+	if j.host != "" {
+		sp.Host = j.host
+		if mv.Origin == "same" && origin == "" {
+			sp.Origin = "http://" + j.host
+		}
+	}
 	j.replay = func(sp *reqSpec) any {
-		return tableReplay{Mode: mode, CredTag: p.cv.Tag, Path: sp.Path, Method: sp.Method, ACRM: sp.ACRM, Origin: sp.Origin, Dev: j.w.model.Dev, Via: sp.Via}
+		return tableReplay{Mode: mode, CredTag: p.cv.Tag, Path: sp.Path, Method: sp.Method, ACRM: sp.ACRM, Origin: sp.Origin, Dev: j.w.model.Dev, Via: sp.Via, Host: j.host}
 	}
 	o, e := j.run(sp)
 	j.b.Count("table_cells_done", 1)
-	j.b.DistinctS(fmt.Sprintf("%s|%s|%s|%s/%s|%s|%v", mode, p.cv.Tag, t.Path, mv.Method, mv.ACRM, sp.Origin, j.w.model.Dev))
+	j.b.DistinctS(fmt.Sprintf("%s|%s|%s|%s/%s|%s|%v|%s", mode, p.cv.Tag, t.Path, mv.Method, mv.ACRM, sp.Origin, j.w.model.Dev, j.host))
 	if sampleWanted(j, e, o) {
 		j.b.Sample(map[string]any{"spec": sp, "expect": e, "obs": o})
 	}
@@ -248,11 +255,41 @@ func runOrigin(w *world, j *judge, cs childSpec) error {
 	}
 	targets := append(diagTargets(), target{"/api/v1/verif/e/2/3", mTarget{"endpoint", mUser, mAdmin}}, target{"/verif/none", mTarget{"noroute", 0, 0}})
 	origins := originVariants()
+	// Host header variants: with and without port, IP literal, local name; the Origins are
+	// derived from each Host (same host:port, same name with another / no / default port, foreign)
+	var fewer []prepared
+	for i, p := range ps {
+		if i%4 == 0 || p.cv.Tag == "key/admin/admin/bearer" {
+			fewer = append(fewer, p)
+		}
+	}
+	hostVars := []string{"api.verif.test", "127.0.0.1:8817", "localhost:817", "[::1]:817", "verif-host"}
+	hostOrigins := func(h string) []string {
+		name, _ := splitHostPort(h)
+		return []string{"http://" + h, "https://" + h, "http://" + name, "http://" + name + ":9999", "https://" + name + ":443", "http://" + name + ":80",
+			"http://" + name + ":08817", "http://x" + name, "http://evil.example"}
+	}
 	w.b.Count("table_cells_planned", int64(2*len(ps)*len(targets)*len(methodVars)*len(origins)))
+	for _, h := range hostVars {
+		w.b.Count("table_cells_planned", int64(2*len(fewer)*len(targets)*len(methodVars)*len(hostOrigins(h))))
+	}
 	for _, dev := range []bool{false, true} {
 		if err := w.setDev(dev); err != nil {
 			return err
 		}
+		for _, h := range hostVars {
+			j.host = h
+			for _, or := range hostOrigins(h) {
+				for _, p := range fewer {
+					for _, t := range targets {
+						for _, mv := range methodVars {
+							j.tableCell("origin-host", p, t, mv, or)
+						}
+					}
+				}
+			}
+		}
+		j.host = ""
 		for _, or := range origins {
 			for _, p := range ps {
 				for _, t := range targets {
@@ -360,6 +397,13 @@ func runReplay(w *world, j *judge, cs childSpec) error {
 	case "revoke":
 		cs.N = 5
 		return runRevoke(w, j, cs)
+	case "expiry":
+		var er expiryReplay
+		if err := json.Unmarshal(cs.Replay, &er); err != nil {
+			return err
+		}
+		cs.Shard = er.Shard
+		return runExpiry(w, j, cs)
 	case "hang", "churn":
 		// schedule dependent: repeat the history class that produced it
 		cs.N = 80
@@ -424,6 +468,9 @@ func runReplay(w *world, j *judge, cs childSpec) error {
 	sp := specFor(p, *tgt, methodVar{Method: tr.Method, ACRM: tr.ACRM}, tr.Origin)
 	if tr.Cookie != "" {
 		sp.Cookie = tr.Cookie
+	}
+	if tr.Host != "" {
+		sp.Host = tr.Host
 	}
 	if tr.Via != "" {
 		sp.Via = tr.Via
